@@ -23,11 +23,11 @@ PROPERTY = "C20"
 LEVEL = "exploration"
 SHARDS = {"quick": 16, "thorough": 16}
 SUBCHECKS = ["C01", "C02", "C03", "C04", "C05", "C06", "C07", "C08", "C11"]
-RULE = ("15 canonical Specs (the demo Spec re-rendered and one Spec per single transformation) plus Hypothesis-drawn Specs: configuration Specs derived from the demo Spec by random subsets of: renaming the project / type / state / version / leaf / node "
+RULE = ("16 canonical Specs (the demo Spec re-rendered and one Spec per single transformation; some also carry a folder joining a free value, a non-first default path configuration, or a path configuration with its own state names) plus Hypothesis-drawn Specs: configuration Specs derived from the demo Spec by random subsets of: renaming the project / type / state / version / leaf / node "
         "keys, the basetypes, type codes and folders; renaming level keys, swapping closed vocabularies and digit prefixes / widths; "
         "inserting or removing a hierarchy level; toggling the side branch; other states and value mappings; other version patterns and "
         "projects; other file-name separators and fixed folders; other extension groups and aliases; a third basetype; a third path "
-        "configuration. Each Spec is rendered to a full configuration package (sid, fs, data conf) and the cores of C01-C08 and C11 "
+        "configuration, any of the configurations being the default, the last one optionally with its own mapped state names; a folder name joining a closed and a free value. Each Spec is rendered to a full configuration package (sid, fs, data conf) and the cores of C01-C08 and C11 "
         "(their oracles come from the reference model built on the loaded raw conf) run in subprocesses with that package first on the "
         "python path, at reduced example counts. evaluations = configurations x sub-checks run; "
         "non-trivial = configuration differing from the demo in >= 2 dimensions; distinct = distinct Spec")
